@@ -25,3 +25,129 @@ Print Assumptions C15_mem.
 Theorem C15_nodup : forall (t : list Z) (bs W : Z), NoDup (all_events t bs W).
 Proof. exact NoDup_all_events'. Qed.
 Print Assumptions C15_nodup.
+
+(* THE HEADLINE.  correlograms(..., symmetrize=False) for every non-decreasing spike train, EVERY
+   labelling and every caller's cluster list (distinct non-negative ids containing every label, in
+   any order, possibly with ids that have no spikes), every rate > 0 / bin / window with
+   binsize = floor(rate * clip(bin)) >= 1: the call succeeds (no assertion, no IndexError, no
+   ravel_multi_index / bincount / broadcast error, the loop does not run out of fuel), the array has shape
+   (len ids, len ids, W + 1) with W = floor(clip(window) / (2 clip(bin))), and entry (i, j, k) is the number of
+   index pairs a < b with label a = ids[i], label b = ids[j] and floor((t_b - t_a) / binsize) = k. *)
+Theorem C15_pairs : forall (t labels ids : list Z) (rate bin win : Q),
+  (0 < rate)%Q -> sortedZ t -> length labels = length t -> ids_ok labels ids -> 1 <= binsize_of rate bin ->
+  exists C, correlograms t labels (Some ids) rate bin win false = Some C /\
+            OneSided_Spec t labels ids (binsize_of rate bin) (half_of bin win) C.
+Proof. exact correlograms_onesided. Qed.
+Print Assumptions C15_pairs.
+
+(* cluster_ids=None: the cluster list is _unique(labels), which for non-negative labels is a valid
+   list (so C15_pairs applies to it), strictly increasing, and contains exactly the labels *)
+Theorem C15_default_ids : forall labels : list Z, (forall x, In x labels -> 0 <= x) ->
+  ids_ok labels (clusters_of labels None) /\ Sorted.StronglySorted Z.lt (clusters_of labels None) /\
+  (forall c, In c (clusters_of labels None) <-> In c labels).
+Proof. exact default_ids. Qed.
+Print Assumptions C15_default_ids.
+
+(* clusters in the caller's order: the entry for a pair of cluster ids does not depend on which other
+   ids the caller lists nor on the order -- it sits at the positions the two ids have in the caller's list *)
+Theorem C15_order : forall (t labels ids ids' : list Z) (rate bin win : Q) (C C' : cube),
+  (0 < rate)%Q -> sortedZ t -> length labels = length t -> ids_ok labels ids -> ids_ok labels ids' ->
+  1 <= binsize_of rate bin ->
+  correlograms t labels (Some ids) rate bin win false = Some C ->
+  correlograms t labels (Some ids') rate bin win false = Some C' ->
+  forall i j i' j' k, (i < length ids)%nat -> (j < length ids)%nat -> (i' < length ids')%nat -> (j' < length ids')%nat ->
+    nth i ids (-1) = nth i' ids' (-1) -> nth j ids (-1) = nth j' ids' (-1) -> Z.of_nat k <= half_of bin win ->
+    nth k (cell C i j) 0 = nth k (cell C' i' j') 0.
+Proof. exact correlograms_order. Qed.
+Print Assumptions C15_order.
+
+(* ids without spikes give zero rows and zero columns *)
+Theorem C15_order_empty : forall (t labels ids : list Z) (rate bin win : Q) (C : cube),
+  (0 < rate)%Q -> sortedZ t -> length labels = length t -> ids_ok labels ids -> 1 <= binsize_of rate bin ->
+  correlograms t labels (Some ids) rate bin win false = Some C ->
+  forall i j k, (i < length ids)%nat -> (j < length ids)%nat -> Z.of_nat k <= half_of bin win ->
+    ~ In (nth i ids (-1)) labels \/ ~ In (nth j ids (-1)) labels -> nth k (cell C i j) 0 = 0.
+Proof. exact correlograms_absent. Qed.
+Print Assumptions C15_order_empty.
+
+(* _symmetrize_correlograms on ANY (nc, nc, w+1) array: 2w+1 bins, positive lags reproduce the one-sided
+   entries, negative lags are the transposed entries, the centre is the larger of the two zero-lag
+   entries, and S[i,j,k] = S[j,i,-k] *)
+Theorem C15_sym_array : forall (nc w : nat) (C : cube), Shape nc nc (S w) C ->
+  exists S', symmetrize C = Some S' /\ Sym_Spec nc w C S'.
+Proof. exact symmetrize_spec. Qed.
+Print Assumptions C15_sym_array.
+
+(* correlograms(..., symmetrize=True) is that symmetrisation of the one-sided pair counts *)
+Theorem C15_sym : forall (t labels ids : list Z) (rate bin win : Q),
+  (0 < rate)%Q -> sortedZ t -> length labels = length t -> ids_ok labels ids -> 1 <= binsize_of rate bin ->
+  exists C S', correlograms t labels (Some ids) rate bin win false = Some C /\
+               correlograms t labels (Some ids) rate bin win true = Some S' /\
+               OneSided_Spec t labels ids (binsize_of rate bin) (half_of bin win) C /\
+               Sym_Spec (length ids) (Z.to_nat (half_of bin win)) C S'.
+Proof. exact correlograms_sym. Qed.
+Print Assumptions C15_sym.
+
+(* firing_rate: R[i][j] = n_i * n_j * bin / (duration or 1), clusters in the caller's order *)
+Theorem C15_rate : forall (labels ids : list Z) (bin : Q) (dur : option Q), ids_ok labels ids -> (0 < bin)%Q ->
+  exists R, firing_rate labels (Some ids) bin dur = Some R /\ Rate_Spec labels ids bin (eff_dur dur) R.
+Proof. exact firing_rate_spec. Qed.
+Print Assumptions C15_rate.
+
+(* ... zero for empty clusters *)
+Theorem C15_rate_empty : forall (labels ids : list Z) (bin d : Q) (R : list (list Q)) (i j : nat),
+  Rate_Spec labels ids bin d R -> (i < length ids)%nat -> (j < length ids)%nat ->
+  ~ In (nth i ids (-1)) labels \/ ~ In (nth j ids (-1)) labels -> (nth j (nth i R []) 0 == 0)%Q.
+Proof. exact rate_empty. Qed.
+Print Assumptions C15_rate_empty.
+
+(* the hypothesis "non-decreasing" is what the code asserts: otherwise the call is rejected *)
+Theorem C15_rejects_unsorted : forall t labels ids rate bin win symm,
+  ~ sortedZ t -> correlograms t labels ids rate bin win symm = None.
+Proof. exact correlograms_unsorted. Qed.
+Print Assumptions C15_rejects_unsorted.
+
+(* ---- non-vacuity: concrete, non-trivial instances ---- *)
+(* 5 spikes, two at the same sample, ids in the caller's order [7; 4; 9; 1] (7 and 9 have no spikes),
+   binsize 1, W = 2 *)
+Example C15_ex_steps :
+  option_map (map step_events) (ccg_steps [0; 0; 1; 1; 2] 1 2) =
+  Some [ [mkev 0 1 0; mkev 1 2 1; mkev 2 3 0; mkev 3 4 1];
+         [mkev 0 2 1; mkev 1 3 1; mkev 2 4 1];
+         [mkev 0 3 1; mkev 1 4 2];
+         [mkev 0 4 2] ].
+Proof. vm_compute. reflexivity. Qed.
+Example C15_ex_mem : In (mkev 1 4 2) (all_events [0; 0; 1; 1; 2] 1 2) /\ D [0; 0; 1; 1; 2] 1 1 4 = 2.
+Proof. vm_compute. tauto. Qed.
+Example C15_ex_pairs :
+  correlograms [0; 0; 1; 1; 2] [4; 1; 1; 4; 4] (Some [7; 4; 9; 1]) 1 1 4 false =
+  Some [ [[0;0;0]; [0;0;0]; [0;0;0]; [0;0;0]];
+         [[0;0;0]; [0;2;1]; [0;0;0]; [1;1;0]];
+         [[0;0;0]; [0;0;0]; [0;0;0]; [0;0;0]];
+         [[0;0;0]; [1;2;1]; [0;0;0]; [0;1;0]] ]
+  /\ ids_ok [4; 1; 1; 4; 4] [7; 4; 9; 1] /\ sortedZ [0; 0; 1; 1; 2] /\ binsize_of 1 1 = 1 /\ half_of 1 4 = 2.
+Proof.
+  split; [vm_compute; reflexivity|]. split.
+  - split; [repeat (constructor; [cbn; lia|]); constructor|]. split; intros x H; cbn in H |- *; lia.
+  - split; [apply sortedZb_spec; reflexivity|]. split; vm_compute; reflexivity.
+Qed.
+Example C15_ex_pair_count : pair_count [0; 0; 1; 1; 2] 1 [4; 1; 1; 4; 4] 4 4 1 = 2 /\
+                            pair_count [0; 0; 1; 1; 2] 1 [4; 1; 1; 4; 4] 1 4 0 = 1.
+Proof. vm_compute. tauto. Qed.
+(* the same call with the ids permuted: entries move with the ids *)
+Example C15_ex_order :
+  correlograms [0; 0; 1; 1; 2] [4; 1; 1; 4; 4] (Some [1; 4]) 1 1 4 false =
+  Some [ [[0;1;0]; [1;2;1]]; [[1;1;0]; [0;2;1]] ].
+Proof. vm_compute. reflexivity. Qed.
+Example C15_ex_default : clusters_of [5; 2; 5; 5; 2] None = [2; 5].
+Proof. vm_compute. reflexivity. Qed.
+Example C15_ex_sym :
+  correlograms [0; 0; 1; 1; 2] [4; 1; 1; 4; 4] (Some [1; 4]) 1 1 4 true =
+  Some [ [[0;1;0;1;0]; [0;1;1;2;1]]; [[1;2;1;1;0]; [1;2;0;2;1]] ].
+Proof. vm_compute. reflexivity. Qed.
+Example C15_ex_rate :
+  option_map (map (map Qred)) (firing_rate [4; 1; 4; 4] (Some [4; 9; 1]) (1 # 4) (Some (2 # 1))) =
+  Some [ [9 # 8; 0; 3 # 8]; [0; 0; 0]; [3 # 8; 0; 1 # 8] ]%Q.
+Proof. vm_compute. reflexivity. Qed.
+Example C15_ex_unsorted : correlograms [0; 2; 1] [1; 1; 1] None 1 1 2 false = None /\ ~ sortedZ [0; 2; 1].
+Proof. split; [vm_compute; reflexivity|]. rewrite <- sortedZb_spec. vm_compute. discriminate. Qed.
